@@ -367,7 +367,12 @@ func runC12(s *kernel.Sim, cfg string) {
 
 		rq := kernel.Pick(t, rs, "requester")
 		host := genHost(t, w.ver, rs)
-		qt := kernel.Pick(t, []uint16{dns.TypeA, dns.TypeA, dns.TypeAAAA, dns.TypeHTTPS}, "qtype")
+		// (The types above 255 are those whose lower octet is that of A, AAAA
+		// or HTTPS.)
+		qt := kernel.Pick(t, []uint16{
+			dns.TypeA, dns.TypeA, dns.TypeAAAA, dns.TypeHTTPS, dns.TypeA, dns.TypeAAAA, dns.TypeHTTPS,
+			dns.TypeCAA, 256 + dns.TypeAAAA, 256 + dns.TypeHTTPS, dns.TypeTXT, dns.TypeMX,
+		}, "qtype")
 
 		ra := w.ask(w.a, rq, host, qt)
 		w.cmB.ClearAll()
